@@ -42,7 +42,8 @@ static inline i128 m_val(const MPZ *m){ return (int32_t)m->f1 < 0 ? -(i128)m_mag
  * 2 allocated; lim bounds the magnitude */
 static inline bool m_ok(const MPZ *m, i128 lim){
   uint32_t n = m_n(m);
-#if defined(GM_FLAT) && !defined(__cplusplus)
+#if defined(__cplusplus) || defined(GM_FLAT)
+  /* native (real GMP allocates only what it needs) and flat model: no allocation count */
   return n <= NLIMB && m_top(m) != 0 && m_mag(m) < (u128)lim; }
 #else
   return n <= NLIMB && (int32_t)m->f0 >= NLIMB && m_top(m) != 0 && m_mag(m) < (u128)lim; }
